@@ -4,7 +4,7 @@
    uniqueIndexScanner.Next (boltz/query_scanners.go).  Mirrors the FIXED code.
    No proofs in this file. *)
 From Coq Require Import List ZArith NArith Bool.
-From Storage Require Import Base.Bytes Ast.F64 Ast.Values Ast.Schema Ast.Untyped Ast.Typed.
+From Storage Require Import Base.Bytes Ast.F64 Ast.Values Ast.Schema Ast.Stacked Ast.Untyped Ast.Typed.
 Import ListNotations.
 Open Scope Z_scope.
 
@@ -50,10 +50,6 @@ Fixpoint any_loop (pred : sval -> res bool) (c : list sval) : res bool :=
   | e :: c' => b <- pred e ;; if b then Ok true else any_loop pred c'
   end.
 
-(* SetCursor.Current() of a set element: the key without its type tag; nil for a null element *)
-Definition elem_id (v : sval) : option str :=
-  match v with VStr s => Some s | _ => None end.
-
 (* uniqueIndexScanner.Next, called until the scanner is exhausted: the ids it yields.
    fixes/C01-scanner-null-element.patch: elements without an id are skipped *)
 Fixpoint scan_next (evalrow : str -> res bool) (toff tlim : Z) (c : list sval) (offset collected : Z)
@@ -92,20 +88,6 @@ Section Eval.
   Variable fmt_time : Z -> Z -> str.
 
   (* ---- symbols ---- *)
-  (* EntitySymbol.Eval of one chain element on a row id *)
-  Fixpoint link_eval (d : db) (l : link) (id : str) : sval :=
-    match l with
-    | LkId => VStr id
-    | LkField st _ path _ => field_get d st id path
-    | LkSet _ _ _ _ => VNil                      (* entitySetSymbolImpl.Eval: (0, nil) *)
-    | LkComp _ chain =>
-        (fix go (c : list link) (cur : sval) : sval :=
-           match c with
-           | [] => cur
-           | x :: r => go r (link_eval d x (match elem_id cur with Some s => s | None => [] end))
-           end) chain (VStr id)
-    end.
-
   (* rowCursorImpl symbol.Eval(tx, currentRow) for the named symbol *)
   Definition sym_eval (E : env) (n : str) : res sval :=
     match (match en_cur E with Some (m, v) => if str_eqb m n then Some v else None | None => None end) with
@@ -113,17 +95,25 @@ Section Eval.
     | None =>
         match resolve (en_sch E) (en_store E) n with
         | None => Ok VNil                         (* unknown symbol: logged, nil *)
-        | Some (RSimple l) => Ok (link_eval (en_db E) l (en_row E))
-        | Some (RChainVal _ chain) => Ok (link_eval (en_db E) (LkComp TOther chain) (en_row E))
+        | Some (RSimple l) => Ok (link_value (en_db E) l (en_row E))
+        | Some (RChainVal ty chain) => Ok (link_value (en_db E) (LkComp ty chain) (en_row E))
         | Some (RChainSet _ _ _) => Panic         (* compositeEntitySetSymbol.Eval with a nil cursor *)
         end
     end.
 
-  (* rowCursorImpl.OpenSetCursor: the elements the cursor will enumerate *)
-  Definition set_elems (E : env) (n : str) : list sval :=
+  (* rowCursorImpl.OpenSetCursor: the keys the cursor will enumerate (entitySetSymbolRuntime over the
+     set bucket, stackedCursor for a composite set symbol, EmptyCursor otherwise) *)
+  Definition set_keys (E : env) (n : str) : list sval :=
     match resolve (en_sch E) (en_store E) n with
     | Some (RSimple (LkSet st _ key _)) => set_get (en_db E) st (en_row E) key
+    | Some (RChainSet _ chain _) => stacked_keys (en_db E) chain (en_row E)
     | _ => []
+    end.
+  (* what the set symbol evaluates to on each cursor position (symbol.Eval while the cursor is open) *)
+  Definition set_elems (E : env) (n : str) : list sval :=
+    match resolve (en_sch E) (en_store E) n with
+    | Some (RChainSet _ _ last) => map (last_value (en_db E) last) (set_keys E n)
+    | _ => set_keys E n
     end.
   (* is the opened cursor an entitySetSymbolRuntime (TypeSeekableSetCursor) *)
   Definition set_seekable (E : env) (n : str) : bool :=
@@ -149,7 +139,7 @@ Section Eval.
         | Some S' =>
             scan_next (fun id => evq (row_env E S' id) q)
                       (paging_offset (fst (pgq q))) (paging_limit (snd (pgq q)))
-                      (set_elems E n) 0 0
+                      (set_keys E n) 0 0
         end
       else Ok [].
 
